@@ -1841,7 +1841,9 @@ def drive_wrapper(data, sizes, drive, allowed=None, expected=None, k=1, form=Non
         errd = whitebox.w_errored(x)
         per = ';'.join('%s%s %s' % (i.NAME, '!' if i in errd else '', insp_impl.show_verdict(i, None)) for i in insps)
         outs.append(end + '\t' + insp_impl.show_fmt(x) + '\t' + per)
-    if len(set(outs)) > 1:
+    # after an abort by the expected inspector only the order-independent part is comparable (see wrap_canon):
+    # the copy's inspector *set* need not iterate in the same order as the original's
+    if len({wrap_canon('\t' + o, expected) for o in outs}) > 1:
         return 'COPIES-DIFFER\t' + ' <> '.join(outs)
     return outs[0]
 
